@@ -21,7 +21,7 @@ CHECKS = {
    design="1/C10 and 6.5", engine="E1 enum"),
  "C18": dict(
    level="exploration",
-   text="Every corpus face without AAT substitution (672) x {rule witnesses: the rune sequences spelling every ligature, context / chained-context rule (3 formats, incl. rules without nested lookups), reverse chaining rule, kerning pair per value-record signature (incl. device/variation-only records), cursive and mark attachment of the face's own GSUB/GPOS lookups and kern pairs, alone and embedded in neutral context; every string up to the tier's length over the font-derived alphabet and the script packs} x {native, opposite direction} x cluster levels 0/1 x {no feature, liga off, kern off, first optional feature} x {default instance, per-axis max/min}. For every shaped result every subset of the safe boundaries (<= 3 boundaries; else every single cut + all cuts): pieces shaped through Buffer.AddRunes(text, start, len) with Bot/Eot cleared at interior ends, concatenated in visual order, compared glyph by glyph (id, cluster, advances, offsets) with the whole-text result; defined glyph flags uniform per cluster.",
+   text="Every corpus face without AAT substitution (672) x {rule witnesses: the rune sequences spelling every ligature, context / chained-context rule (3 formats, incl. rules without nested lookups), reverse chaining rule, kerning pair per value-record signature (incl. device/variation-only records), cursive and mark attachment of the face's own GSUB/GPOS lookups and kern pairs, alone and embedded in neutral context; every string up to the tier's length over the font-derived alphabet and the script packs; for faces with automatic fractions every string of length 3..5 (6) over {1, U+2044, 2, space}} x {native, opposite direction} x cluster levels 0/1 x {no feature, liga off, kern off, first optional feature} x {default instance, per-axis max/min}. For every shaped result every subset of the safe boundaries (<= 3 boundaries; else every single cut + all cuts): pieces shaped through Buffer.AddRunes(text, start, len) with Bot/Eot cleared at interior ends, concatenated in visual order, compared glyph by glyph (id, cluster, advances, offsets) with the whole-text result; defined glyph flags uniform per cluster.",
    note="13 known findings (known_findings.jsonl): non-native directions (one key for the Arabic class, one per kind of input for the other shapers) and three classes of Indic broken/decomposable sequences, all with identical whole/piece results in libharfbuzz 6.0.0 (cmd/hbcut), i.e. behaviour of the reference shaper that C05 requires. Violation keys carry shaper class, native/non-native direction and the lookup type of the witness, so other violations are still reported. Witnesses per lookup and pairs per signature are capped per tier (counted in the evidence).",
    technique="bounded exhaustive enumeration of inputs (rule-witness quotient of the font's own lookups + alphabets) x configurations x every safe cut set, differential oracle whole vs pieces (E1)",
    design="1/C18 and 6.8", engine="E1 enum"),
@@ -49,13 +49,13 @@ CHECKS = {
    design="1/C12", engine="E1 enum"),
  "C13": dict(
    level="model_checking",
-   text="Explicit exploration of every operation history up to depth 4 (thorough 5; LineWrapper 3/4) on 7 real objects: HarfbuzzShaper (several faces incl. two faces of one variable Font, sizes, features, directions, cache sizes, SetVariations on a cached face), harfbuzz.Buffer (flags, cluster levels, ranged features, sub-ranges), font.Face on a CFF2-variable, a gvar/HVAR and a bitmap font (SetVariations/SetCoords/SetPpem interleaved with queries), shaping.Segmenter, LineWrapper (WrapParagraph / Prepare / WrapNextLine). The last call of every history must equal the same call on freshly constructed objects; earlier results are re-compared with their copies until the documented invalidation point.",
+   text="Explicit exploration of every operation history up to depth 4 (thorough 5; LineWrapper 3/4) on 7 real objects: HarfbuzzShaper (several faces incl. two faces of one variable Font, sizes, features, directions, cache sizes, SetVariations on a cached face), harfbuzz.Buffer (flags, cluster levels, ranged features, sub-ranges), font.Face on a CFF2-variable, a gvar/HVAR and a bitmap font (SetVariations/SetCoords/SetPpem interleaved with queries), shaping.Segmenter, LineWrapper (WrapParagraph / Prepare / WrapNextLine; paragraphs of equal length handed over in one caller buffer overwritten in place). The last call of every history must equal the same call on freshly constructed objects; earlier results are re-compared with their copies until the documented invalidation point.",
    note="No hidden-state merging: histories are enumerated exhaustively and run on the implementation. segmenter.Segmenter reuse is decided by C06. Input alphabets are small and chosen to collide (same Font/different Face, same counts/different clusters).",
    technique="explicit-state exploration of operation histories on the real objects with a differential (fresh object) oracle (E2)",
    design="1/C13", engine="E2 hist"),
  "C16": dict(
    level="fault_enumeration",
-   text="(a) round trip of the index of every corpus face and of extreme synthetic footprints; (b) every prefix (crash point) of the written gzip stream, every byte x 255 values of it, and byte/prefix faults of the uncompressed payload re-compressed, for two indexes; (c) the refresh sequence on every crash state of the cache file; (d) explicit-state search over file-system histories (17 operations incl. backward mtimes, renames, symlinks) with a refresh and a persist/reload after each step, deduplicated on (tree listing, persisted index): incremental scan == scan from scratch.",
+   text="(a) round trip of the index of every corpus face and of extreme synthetic footprints; (b) every prefix (crash point) of the written gzip stream, every byte x 255 values of it, and byte/prefix faults of the uncompressed payload re-compressed, for two indexes; (c) the refresh sequence on every crash state of the cache file; (d) explicit-state search over file-system histories (18 operations incl. backward mtimes, renames, symlinks, two fonts installed with one shared time stamp) with a refresh and a persist/reload after each step, deduplicated on (tree listing, persisted index): incremental scan == scan from scratch.",
    note="refreshSystemFontsIndex is emulated on scratch directories with the same three calls (it reads host font directories otherwise). A corrupted cache that still parses to another index is counted, not judged. Hooks: fontscan.Verif* index entry points.",
    technique="exhaustive crash-point / single-fault enumeration (E4) + explicit-state search over file-system histories on the real scanner (E2)",
    design="1/C16", engine="E4 fault"),
@@ -97,7 +97,7 @@ CHECKS = {
    design="1/C08", engine="E1 enum"),
  "C02": dict(
    level="exploration",
-   text="All paragraphs up to the tier's length over a 9-symbol line-breaking alphabet x all run splits, direction vectors and cluster structures x all critical widths x policies, with truncation, trimming, spacing, iterator and driver axes crossed one at a time; every returned line is checked for coverage, glyph identity (unique ids), cluster integrity and advance = sum of glyph advances.",
+   text="All paragraphs up to the tier's length over a 9-symbol line-breaking alphabet x all run splits, direction vectors and cluster structures x all critical widths (and two widths beyond 26.6 fixed point) x policies, with truncation, trimming, spacing, iterator and driver axes crossed one at a time; every returned line is checked for coverage, glyph identity (unique ids), cluster integrity and advance = sum of glyph advances.",
    note=WRAP_NOTE, technique="bounded exhaustive enumeration of inputs and configurations against conservation laws (small-scope model checking, E1)",
    design="1/C02 + Appendix A", engine="E1 enum"),
  "C03": dict(
